@@ -14,6 +14,9 @@ TARGETS = TARGETS + ["theories/Proofs/GenEq_Backend.vo"]
 GENEQ = dict(GENEQ, **{"theories/Proofs/GenEq_Backend.vo": "Backend"})
 TARGETS = TARGETS + ["theories/Proofs/GenEq_MatcherLoop.vo"]
 GENEQ = dict(GENEQ, **{"theories/Proofs/GenEq_MatcherLoop.vo": "MatcherLoop"})
+# T1 units added after round 4 of the seeded changes
+TARGETS = TARGETS + ["theories/Proofs/GenEq_AssdKernel.vo"]
+GENEQ = dict(GENEQ, **{"theories/Proofs/GenEq_AssdKernel.vo": "AssdKernel"})
 ALLOWED_AXIOMS = ["ClassicalDedekindReals.sig_forall_dec", "ClassicalDedekindReals.sig_not_dec", "FunctionalExtensionality.functional_extensionality_dep"]
 RULE = ("metamorphic on evaluate(): x vs g(x) for g in {zero padding at random offsets, cropping shared empty margins, every axis flip, every axis "
         "permutation, Fortran-ordered / negatively strided / non-contiguous views of the same data}; all input types; compared when the matching is "
@@ -30,7 +33,7 @@ LEVEL_TEXT = ("Props/C10.v: the whole geometry-free pipeline depends only on the
               "permutations and the enclosing box (Props/C07). Memory layout and the semantic-input tie-break are decided by metamorphic "
               "correspondence on the implementation.")
 LEVEL_NOTE = ("Coq: end-to-end for instance input; for semantic input the component numbering changes under flips (C01 semantic theorem: irrelevant "
-              "without ties; with ties = known finding D15); merge matcher padding invariance by building blocks + correspondence. Axioms only "
+              "without ties; with ties = known finding D15); the merge matcher has its own padding theorem (C10_pipeline_merge_matcher_padding_invariant). Axioms only "
               "through C07's real-valued theorems.")
 TECHNIQUE = "machine-checked proof in Rocq (Coq) (permutation/background invariance, ASSD isometries) + metamorphic correspondence on the implementation"
 
